@@ -159,3 +159,55 @@ func VerifJitterArgs(which int) {
 	vAssert(p, "ticker/out-of-contract-arguments-panic")
 	vCover("ticker-args")
 }
+
+// VerifSleepTwice: two SleepContext calls in a row - the first one ended by a cancellation that
+// arrives at an arbitrary moment (possibly in the same instant as its timer) - must not influence
+// one another: the second returns nil only after at least its own d has elapsed.
+//verif:case C20 quick VerifSleepTwice @arith=1 @noreplay=1 @fires=3
+func VerifSleepTwice() {
+	d1 := time.Duration(vNondetInt("d1"))
+	d2 := time.Duration(vNondetInt("d2"))
+	vAssume(vAnd(vAnd(d1 > 0, d1 < 1<<40), vAnd(d2 > 0, d2 < 1<<40)))
+	ctx, cancel := context.WithCancel(context.Background())
+	go func() { cancel() }()
+	SleepContext(ctx, d1)
+	t0 := time.Now()
+	err := SleepContext(context.Background(), d2)
+	t1 := time.Now()
+	vAssert(err == nil, "sleep/second-call-with-a-live-context-returns-nil")
+	vAssert(t1.Sub(t0) >= d2, "sleep/nil-only-after-at-least-d")
+	vCover("sleep-twice")
+}
+
+// VerifTickerRestart: Reset of a stopped ticker (documented arguments) does not panic and
+// ticking resumes with the new spacing.
+//verif:case C20 quick VerifTickerRestart 0..1 @arith=1 @noreplay=1 @fires=3
+func VerifTickerRestart(withTick int) {
+	d := time.Duration(vNondetInt("d"))
+	j := time.Duration(vNondetInt("jitter"))
+	vAssume(vAnd(d > 0, vAnd(0 <= j, j < d)))
+	vAssume(d < 1<<59)
+	t := NewJitterTicker(d, j)
+	if withTick == 1 {
+		<-t.C
+	}
+	t.Stop()
+	select {
+	case <-t.C: // a tick sent before Stop returned may still be buffered
+	default:
+	}
+	d2 := time.Duration(vNondetInt("d2"))
+	j2 := time.Duration(vNondetInt("jitter2"))
+	vAssume(vAnd(d2 > 0, vAnd(0 <= j2, j2 < d2)))
+	vAssume(d2 < 1<<59)
+	from := time.Now()
+	p := vTry(func() { t.Reset(d2, j2) })
+	vAssert(!p, "ticker/reset-no-panic-for-documented-arguments")
+	if p {
+		return
+	}
+	tk := <-t.C // (a ticker that stayed stopped would deadlock here)
+	vAssert(tk.Sub(from) >= d2-j2, "ticker/ticks-at-least-d-minus-jitter-apart")
+	t.Stop()
+	vCover("ticker-restart")
+}
